@@ -61,6 +61,9 @@ type Step struct {
 	Kind   string `json:"kind,omitempty"`   // send: connect badconnect ping pub ok ack bad mal disc ; api: terminate publish
 	N      int    `json:"n,omitempty"`      // repetition (amplification of the model's capacities)
 	NoWait bool   `json:"nowait,omitempty"` // fillers: do not wait for answers
+	// Tail: that many PINGREQ packets follow the packet in the SAME write (pipelined behind a packet that makes the
+	// broker stop consuming client.in: they are in the socket before the broker can close it)
+	Tail int `json:"tail,omitempty"`
 	Ms     int    `json:"ms,omitempty"`
 }
 
@@ -307,7 +310,7 @@ func classify(g *gor) {
 		g.Class, g.Root = "seterror-blocked-in-once-writing-disconnect", true
 	case has(g, "(*client).setError"):
 		g.Class = "seterror-waiting-for-once"
-	case has(g, "(*client).readLoop") && g.State == "chan send":
+	case has(g, "(*client).readLoop") && (g.State == "chan send" || g.State == "select"): // (the select around the send to `in`)
 		g.Class, g.Root = "readloop-blocked-sending-to-in", true
 	case has(g, "(*client).readLoop") && g.State == "chan receive":
 		g.Class = "readloop-waiting-for-connected"
@@ -527,6 +530,7 @@ type peer struct {
 	eofAt     time.Time
 	afterDisc bool
 	sentBad   bool
+	tail      int // PINGREQ packets to append to the next packet in the same write
 	reqs      []*request
 	unacked   []uint16
 	discCode  int
@@ -594,6 +598,21 @@ func (p *peer) reader() {
 func (p *peer) send(pk *mw.Packet, raw []byte) {
 	p.c.Conn.SetWriteDeadline(time.Now().Add(400 * time.Millisecond))
 	var err error
+	if p.tail > 0 {
+		if raw == nil {
+			pk.Version = p.spec.Ver
+			if b, e := mw.Encode(pk); e == nil {
+				raw = b
+			}
+		}
+		if raw != nil {
+			raw = append([]byte(nil), raw...)
+			for i := 0; i < p.tail; i++ {
+				raw = append(raw, 0xC0, 0x00)
+			}
+		}
+		p.tail = 0
+	}
 	if raw != nil {
 		err = p.c.SendRaw(raw)
 	} else {
@@ -700,6 +719,9 @@ func runScript(sc *Scenario) {
 				continue
 			}
 			for i := 0; i < n; i++ {
+				if st.Tail > 0 && (st.Kind == "bad" || st.Kind == "mal" || st.Kind == "disc" || st.Kind == "badconnect") {
+					p.tail = st.Tail
+				}
 				switch st.Kind {
 				case "connect":
 					r := p.expect("connect")
